@@ -130,7 +130,7 @@ class FixedBound:
         return dict(self.bounds)
 
 
-def build_scheduler(desc):
+def build_scheduler(desc, sort_wrapper=None):
     from acnportal import algorithms as al
     sd = desc["scheduler"]
     if sd["kind"] == "scripted":
@@ -150,7 +150,10 @@ def build_scheduler(desc):
                   uninterrupted_charging=bool(sd.get("unint")))
         if sd["algo"] == "rr":
             kw["continuous_inc"] = sd.get("inc", 0.1)
-        return cls(sort_fn(sd["sort"]), **kw)
+        sf = sort_fn(sd["sort"])
+        if sort_wrapper is not None:
+            sf = sort_wrapper(sf, sd["sort"])
+        return cls(sf, **kw)
     raise ValueError(sd["kind"])
 
 
